@@ -70,13 +70,13 @@ func (propC10) Gen(seed uint64, tier string, idx int) *Plan2 {
 		for i := 0; i < n; i++ {
 			switch x := r.n(20); {
 			case x < 7:
-				ops = append(ops, Op{K: "reg", A: int64(e), L: c10List(r)})
+				ops = append(ops, Op{K: "reg", A: int64(e), L: c10List(r), B: int64(r.n(2))})
 			case x < 12:
-				ops = append(ops, Op{K: "disc", A: int64(e), L: c10List(r)})
+				ops = append(ops, Op{K: "disc", A: int64(e), L: c10List(r), B: int64(r.n(2))})
 			case x < 14:
 				ops = append(ops, Op{K: "discfail", A: int64(e), S: []string{"network", "parse", "status500"}[r.n(3)]})
 			case x < 16:
-				ops = append(ops, Op{K: "reg1", A: int64(e), S: c10Models[r.n(len(c10Models))]})
+				ops = append(ops, Op{K: "reg1", A: int64(e), S: c10Models[r.n(len(c10Models))], B: int64(r.n(2))})
 			case x < 18:
 				ops = append(ops, Op{K: "rm", A: int64(e)})
 			case x < 19:
@@ -216,6 +216,14 @@ func (propC10) Exec(p *Plan2, res *Result2) {
 					continue
 				}
 				ep := eps[e]
+				// B=1: the caller's context ends as soon as the call has returned, the way a discovery
+				// round's errgroup context does; what the call accepted must still take effect
+				ctx := ctx
+				endCtx := func() {}
+				if op.B == 1 {
+					ctx, endCtx = context.WithCancel(ctx)
+				}
+				_ = endCtx
 				switch op.K {
 				case "reg":
 					var err error
@@ -295,6 +303,7 @@ func (propC10) Exec(p *Plan2, res *Result2) {
 					}
 					note("writer%d match %s", ti, op.S)
 				}
+				endCtx()
 			}
 		})
 	}
